@@ -178,6 +178,11 @@ func runOne(st Stim, transport string) Trace {
 					p.respond(mid, tok, code, &seq, "first")
 				case "noobs":
 					p.respond(mid, tok, codes.Content, nil, "first")
+				case "err2xx":
+					// a success-class answer that is not 2.05 / 2.03 (2.04 Changed, 2.01 Created, 2.02 Deleted, 2.31 Continue), carrying an
+					// Observe option: not a registration
+					seq := uint32(e.Seq)
+					p.respond(mid, tok, []codes.Code{codes.Changed, codes.Created, codes.Deleted, codes.Continue}[e.Seq%4], &seq, "first")
 				default:
 					p.respond(mid, tok, codes.NotFound, nil, "")
 				}
